@@ -135,3 +135,46 @@ Example C13_keeps_example :
   has (get 0 (conns (fst (run (linit 2) [Acquire 0; Acquire 1])))) = true
   /\ has (get 0 (conns (fst (step (fst (run (linit 2) [Acquire 0; Acquire 1])) (Release 0))))) = false.
 Proof. vm_compute. auto. Qed.
+
+(* ---- the tie to the source by translation (session 3, second wave): the
+   lock handlers of comms.Worker (_lock_db, _unlock_db, _get_db_lock_status,
+   _do_acquire, _do_release, connectionLost, the acquire / release branches of
+   do, context.lock_db / unlock_db), regenerated from the python source on
+   every run (Gen/LockGen.v, tools/translate/lock2coq.py), ARE the step
+   function of Model/Lock.v: the model's event loop spelled with the generated
+   handlers (LockGenEq.gstep; what stays hand-written there is Twisted's
+   delivery discipline, listed in that file) equals Lock.step on every state
+   and event, hence on every history.  Every theorem above is therefore about
+   the handlers as they are in the source today. ---- *)
+From DV Require Gen.LockGen Proofs.LockGenEq.
+
+Theorem C13_step_is_source : forall st e, LockGenEq.gstep st e = step st e.
+Proof. exact LockGenEq.step_gen_eq. Qed.
+Print Assumptions C13_step_is_source.
+
+Theorem C13_run_is_source : forall n evs, LockGenEq.grun (linit n) evs = run (linit n) evs.
+Proof. intros n evs. apply LockGenEq.run_gen_eq. Qed.
+Print Assumptions C13_run_is_source.
+
+(* a new Worker object is the model's fresh connection *)
+Theorem C13_fresh_is_source :
+  mkCst LockGen.init_has false LockGen.init_stopped LockGen.init_lost false 0 = fresh.
+Proof. exact LockGenEq.fresh_gen_eq. Qed.
+Print Assumptions C13_fresh_is_source.
+
+(* mutual exclusion restated on the generated handlers alone *)
+Theorem C13_mutex_is_source : forall n evs,
+  let st := fst (LockGenEq.grun (linit n) evs) in
+  (forall i j, has (get i (conns st)) = true -> has (get j (conns st)) = true -> i = j)
+  /\ (lock st = true <-> exists i, has (get i (conns st)) = true).
+Proof.
+  intros n evs. rewrite LockGenEq.run_gen_eq.
+  destruct (C13_mutex n evs) as (A & B & _). split; assumption.
+Qed.
+Print Assumptions C13_mutex_is_source.
+
+Example C13_source_example :
+  snd (LockGenEq.grun (linit 2) [Acquire 0; Acquire 1; Poll 1; Release 0; Poll 1; Drop 0; Drop 1])
+  = [ToldYours 0; ToldBusy 1; ToldBusy 1; Released 0 true; Closed 0; ToldYours 1]
+  /\ LockGen.request_acquire (true, false, true, false, false, false, 0%nat, []) = None.
+Proof. vm_compute. auto. Qed.
